@@ -36,6 +36,8 @@ def main():
         args.remove('--round7'); root = '/tmp/sg'; names = {'a': 'm', 'b': 'n'}
     if '--round8' in args:
         args.remove('--round8'); root = '/tmp/sh'; names = {'a': 'o', 'b': 'p'}
+    if '--round9' in args:
+        args.remove('--round9'); root = '/tmp/si'; names = {'a': 'q', 'b': 'r'}
     for prop in args:
         src = '%s/%s/out' % (root, prop)
         for v in ('a', 'b'):
